@@ -137,6 +137,9 @@ structure St where
   corrOk : Bool := true
   notes : List String := []
   wfOk : Bool := true
+  curGap : Bool := false                 -- current message: a sighting for the code's location test, not for the text's
+  gaps : List Bool := []                 -- reversed, one per step
+  mode : CbMode := .both                 -- which callbacks the listener under test was given (`mode` line)
 
 def St.bad (st : St) (s : String) : St :=
   { st with corrOk := false, notes := if st.notes.length < 3 then st.notes ++ [s] else st.notes }
@@ -145,7 +148,10 @@ def beginEv (st : St) (genCfg specCfg : Cfg) (evOf : Cfg → Ev S) : St :=
   let eM := evOf genCfg
   let r := step Parse.ipVersion (Parse.skipHdr genCfg) st.tracker eM
   let st := if eM.wf then st else st.bad "ill-formed message (harness): _udn differs from the USN's udn / NTS missing"
-  { st with before := st.tracker, tracker := r.1, notif := r.2, evJ := some (evOf specCfg), cur := {} }
+  let gap := match eM, Parse.textReading (evOf specCfg) with
+    | .msg m, .msg mj => m.sighting?.isSome && mj.sighting?.isNone
+    | _, _ => false
+  { st with before := st.tracker, tracker := r.1, notif := r.2, evJ := some (Parse.textReading (evOf specCfg)), cur := {}, curGap := gap }
 
 def stepLine (genCfg specCfg : Cfg) (st : St) (toks : List String) : St :=
   match toks with
@@ -157,6 +163,16 @@ def stepLine (genCfg specCfg : Cfg) (st : St) (toks : List String) : St :=
     (match pairList st.tbl (if rest.isEmpty then "~" else ",".intercalate rest) with
      | some pairs => beginEv st genCfg specCfg fun cfg => Parse.parseEv cfg (sock == "A") pairs
      | none => st.bad "bad msg line")
+  | ["mode", m] =>
+    { st with mode := if m = "sync" then .sync else if m = "async" then .async else .both }
+  | "lost" :: sock :: ts :: rest =>
+    -- a well-formed message the harness SENT (headers as the harness built them) that never reached `_on_data`:
+    -- the model follows the implementation (nothing happened), the judges read the message that was sent
+    (match pairList st.tbl (if rest.isEmpty then "~" else ",".intercalate rest) with
+     | some pairs =>
+       let st := beginEv st genCfg specCfg fun _ => .noise (ts.toInt?.getD 0)
+       { st with evJ := some (Parse.textReading (Parse.parseEv specCfg (sock == "A") pairs)) }
+     | none => st.bad "bad lost line")
   | ["drop", ts] => beginEv st genCfg specCfg fun _ => .noise (ts.toInt?.getD 0)
   | ["purge", ts] => beginEv st genCfg specCfg fun _ => .purge (ts.toInt?.getD 0)
   | "pre" :: rest =>
@@ -180,12 +196,12 @@ def stepLine (genCfg specCfg : Cfg) (st : St) (toks : List String) : St :=
      | some sn, some e =>
        let st := if snapFullOf st.tracker == sn then st
          else st.bad s!"snap differs at step {st.trace3.length}: impl {repr sn} model {repr (snapFullOf st.tracker)}"
-       let st := if cbsOf "_source" st.notif == st.cur.cbs then st
-         else st.bad s!"callbacks differ at step {st.trace3.length}: impl {repr st.cur.cbs} model {repr (cbsOf "_source" st.notif)}"
+       let st := if cbsOf "_source" st.mode st.notif == st.cur.cbs then st
+         else st.bad s!"callbacks differ at step {st.trace3.length}: impl {repr st.cur.cbs} model {repr (cbsOf "_source" st.mode st.notif)}"
        let snapJ := sn.devs.map devObsOf
        let noLook : Look S := ⟨false, [], [], none, none⟩
        let cur : C04.Obs S := ⟨st.cur.target, st.cur.pre.getD noLook, st.cur.cbs, st.cur.post.getD noLook⟩
-       { st with trace3 := (e, snapJ) :: st.trace3, steps4 := (e, st.lastSnap, cur) :: st.steps4,
+       { st with gaps := st.curGap :: st.gaps, trace3 := (e, snapJ) :: st.trace3, steps4 := (e, st.lastSnap, cur) :: st.steps4,
                  lastSnap := snapJ, evJ := none }
      | _, _ => st.bad "bad snap line")
   | _ => st.bad s!"unknown line {" ".intercalate (toks.take 3)}"
